@@ -441,3 +441,90 @@ def sample(rng, items, k):
     if len(items) <= k:
         return items
     return rng.sample(items, k)
+
+
+_HWMREJ = re.compile(r'<<"TRACE_REJECTED_AT", (\d+)>>')
+
+
+def validate_seq(ctx, module, trace_file, cfg=None, shards=None, tag=None, sigfn=None, max_rejects=4, timeout=3600):
+    """Validation for trace specifications with silent (unlogged) steps: the search branches, so an event
+    nobody can take cannot be skipped; the high-water mark tells where the first unexplainable trace is.
+    That trace is reported and removed, and the shard is checked again (a few times at most)."""
+    tag = tag or module
+    traces = list(split_traces(trace_file))
+    n = len(traces)
+    if n == 0:
+        raise Infra("no traces recorded in %s" % trace_file)
+    # traces in which the harness itself recorded that something never returned (or panicked) are not
+    # behaviours of any trace specification: they are rejected at that event without asking TLC
+    pre = []
+    rest = []
+    for tr in traces:
+        bad = [i for i, x in enumerate(tr) if x.startswith(('{"ev":"stuck"', '{"ev":"hstuck"', '{"ev":"panic"', '{"ev":"hang"'))]
+        if bad:
+            evs = [json.loads(x) for x in tr]
+            pre.append(dict(trace=evs, at=bad[0], event=evs[bad[0]]))
+        else:
+            rest.append(tr)
+    all_traces = traces
+    traces = rest
+    n = len(traces)
+    nsh = shards or min(NCPU, max(1, n // 20))
+    per = (n + nsh - 1) // nsh if n else 1
+    jobs = [(s, traces[s * per:(s + 1) * per]) for s in range(nsh) if traces[s * per:(s + 1) * per]]
+
+    def one(job):
+        s, part = job
+        part = list(part)
+        rej = []
+        unchecked = 0
+        for attempt in range(max_rejects + 1):
+            if not part:
+                break
+            p = ctx.path("shard-%s-%d.ndjson" % (tag, s))
+            with open(p, "w") as f:
+                for tr in part:
+                    f.writelines(tr)
+            r = tlc(ctx, module, cfg, workers=1, env=dict(TRACE_FILE=p), tag="%s-%d" % (tag, s), heap="2g",
+                    deque=True, timeout=timeout, check=False)
+            out = r["out"]
+            if r["rc"] != 0 or "Model checking completed" not in out:
+                raise Infra("trace validation crashed (%s shard %d, rc=%d):\n%s" % (module, s, r["rc"], out[-3000:]))
+            m = _HWMREJ.search(out)
+            if not m:
+                break
+            line = int(m.group(1))
+            k = 1
+            for ti, tr in enumerate(part):
+                if line < k + len(tr):
+                    evs = [json.loads(x) for x in tr]
+                    rej.append(dict(trace=evs, at=line - k, event=evs[line - k]))
+                    del part[ti]
+                    break
+                k += len(tr)
+            else:
+                raise Infra("rejection line %d beyond the shard" % line)
+            if attempt == max_rejects:
+                unchecked = len(part)
+        return len(part) - unchecked, rej, unchecked
+
+    t = time.time()
+    with ThreadPoolExecutor(max_workers=max(1, min(NCPU, len(jobs)))) as ex:
+        results = list(ex.map(one, jobs))
+    rejects = pre + [x for _, rj, _ in results for x in rj]
+    traces = all_traces
+    n = len(traces)
+    accepted = sum(a for a, _, _ in results)
+    unchecked = sum(u for _, _, u in results)
+    log("[validate] %s: %d traces, %d accepted, %d rejected, %d not judged, %.1fs" %
+        (module, n, accepted, len(rejects), unchecked, time.time() - t))
+    ctx.counts["traces"] += accepted
+    for tr in traces:
+        if len(tr) > 2:
+            ctx.counts["nontrivial"].add(hashlib.md5("".join(_strip_tid(x) for x in tr).encode()).hexdigest()[:12])
+    if traces and len(ctx.samples) < 3:
+        ctx.samples.append(dict(source=module, trace=[json.loads(x) for x in traces[len(traces) // 2][:14]]))
+    for rj in rejects:
+        rj["module"] = module
+        rj["sig"] = sigfn(rj) if sigfn else default_sig(ctx.prop, rj)
+    return accepted, rejects
